@@ -145,6 +145,16 @@ CHECKS = {
                      '(KF-C17-except-clause).',
                 technique='TLA+ rule ConcSem enumerated and law-checked by TLC (Conc); every pair evaluated on the real classes; '
                           'answers validated by TLC against the TLA+ monitor ObsC17'),
+    'C19': dict(obs='ObsC19', ref='4/C19',
+                text='SimPySem.tla gives the sequential semantics of Container, Store, PriorityStore, FilterStore, Resource, '
+                     'PriorityResource and PreemptiveResource (policy order, trigger cascade, preemption with Preempted details, '
+                     'cancel/release, with-blocks); SimPy.tla lets TLC enumerate every history of <=4 (thorough 5) operations per '
+                     'kind and capacity and checks the laws (capacity, conservation, each item once, nothing grantable left '
+                     'pending); every history runs on the real classes, the resource is snapshot at the end of every time step, '
+                     'and TLC validates each snapshot against SimPySem recomputed for the history prefix (ObsC19).',
+                note='Exhaustive for the stated history space; one operation per time step, issued by one process each.',
+                technique='TLA+ sequential spec SimPySem enumerated and law-checked by TLC (SimPy); all histories replayed on the '
+                          'real classes; snapshots validated by TLC against the TLA+ monitor ObsC19'),
 }
 
 
